@@ -45,7 +45,9 @@ class Obligation:
              ('known-finding' if self.known else 'VIOLATED')}
         if self.site:
             d['site'] = self.site
-        if self.detail:
+        if self.detail and (not self.ok or self.detail.startswith(
+                ('allow-listed', 'unreachable', 'consumed', 'loop body',
+                 'result is', 'scanned', 'note:'))):
             d['detail'] = self.detail
         return d
 
